@@ -31,11 +31,33 @@ class TooManyPaths(Unverifiable):
     pass
 
 
+class CondList(list):
+    """List of (atom, outcome); `pos[i]` = number of effects recorded before condition i was decided."""
+
+    def __init__(self, it=(), pos=None):
+        list.__init__(self, it)
+        self.pos = list(pos) if pos is not None else []
+        self.eff = None
+
+    def append(self, item):
+        list.append(self, item)
+        self.pos.append(len(self.eff) if self.eff is not None else 0)
+
+    def copy_for(self, eff):
+        c = CondList(self, self.pos)
+        c.eff = eff
+        return c
+
+
 class Path:
     __slots__ = ("conds", "effects", "ret", "cut")
 
     def __init__(self, conds, effects, ret, cut=False):
         self.conds, self.effects, self.ret, self.cut = conds, effects, ret, cut
+
+    @property
+    def cond_pos(self):
+        return getattr(self.conds, "pos", [0] * len(self.conds))
 
     def __repr__(self):
         return f"<Path conds={len(self.conds)} effects={len(self.effects)} ret={self.ret!r}>"
@@ -48,11 +70,15 @@ class St:
     def __init__(self, heap=None, known=None, conds=None, effects=None):
         self.heap = heap or {}
         self.known = known or {}
-        self.conds = conds or []
-        self.effects = effects or []
+        self.effects = effects if effects is not None else []
+        if conds is None:
+            conds = CondList()
+            conds.eff = self.effects
+        self.conds = conds
 
     def fork(self):
-        return St(dict(self.heap), dict(self.known), list(self.conds), list(self.effects))
+        eff = list(self.effects)
+        return St(dict(self.heap), dict(self.known), self.conds.copy_for(eff), eff)
 
 
 class Frame:
@@ -71,9 +97,12 @@ class Deep:
         self.F, self.root = F, root
         self.max_paths, self.max_depth, self.inline = max_paths, max_depth, inline
         self.opaque = re.compile(opaque) if opaque else None
+        self.inline_only = inline_only  # None, or predicate(body) -> bool: which crate-local fns may be inlined
         self.uid = 0
         self.fid = 0
         self.paths = []
+        self.adt_of = {}    # ("discr", term) -> ADT path of the matched value
+        self.call_info = {}  # uid of an opaque call -> its fn operand (path, self type, trait, ...)
 
     # ---- public -----------------------------------------------------------------------------------
     def run(self, start_bb=0):
@@ -246,6 +275,8 @@ class Deep:
 
     def discr_of(self, st, v, rv=None):
         vm = tuple((val, n) for val, n in rv["variants"]) if rv else ()
+        if rv and rv.get("adt"):
+            self.adt_of[("discr", v)] = rv["adt"]
         if v[0] == "variant":
             return ("vconst", v[2], vm)
         kn = st.known.get(("discr", v))
@@ -479,6 +510,8 @@ class Deep:
             return False
         if len(cb.blocks) > 400:
             return False
+        if self.inline_only is not None and not self.inline_only(cb):
+            return False
         return True
 
     def _opaque(self, st, path, args, site, cont, f=None):
@@ -492,6 +525,8 @@ class Deep:
                     a = ("refto", v)
             snap.append(a)
         args = snap
+        if f is not None:
+            self.call_info[uid] = f
         st.effects.append(("call", path, tuple(args), site, uid))
         # havoc what mutable references point to?  kept: callers that care look at the effect list
         cont(st, ("call", path, tuple(args), uid))
@@ -605,6 +640,7 @@ class Deep:
         if v[0] == "variant":
             return body_fn(st, v[2], lambda i=0: v[3][i] if i < len(v[3]) else ("unknown", self.fresh()))
         key = ("discr", v)
+        self.adt_of.setdefault(key, {"o": "std::option::Option", "r": "std::result::Result", "c": "std::ops::ControlFlow", "e": "std::collections::hash_map::Entry"}.get(adt, adt))
         kn = st.known.get(key)
         for name in variants:
             if kn is not None and name not in kn:
@@ -814,6 +850,8 @@ class Deep:
         self._case(st, v, "r", self.RES, site, lambda s, n, p: cont(s, ("variant", "std::result::Result", n, (("refto", p()),))))
 
     c_result_as_mut = c_result_as_ref
+    c_result_as_deref = c_result_as_ref
+    c_result_as_deref_mut = c_result_as_ref
 
     # ControlFlow
     CF = ("Continue", "Break")
